@@ -273,54 +273,76 @@ def rule_voicing(ctx, ci):
 
 
 def rule_dispatch(ctx, ci):
+    """Every accepted form of argument ends up as the notes it denotes: add_notes / '+' and remove_notes / '-' are run on
+    the real Note / NoteContainer code and judged by the container's content afterwards (not by which helper was called
+    with which arguments)."""
     R = "R-C12-3"
     repo = ctx.repo
-    rec = record_class(repo, NC, "NoteContainer", ["add_note", "remove_note"], result=Opaque("list"))
-    nci_ = repo.mod(NOTE).cls("Note")
-    # a note taken from another container may be stored as a copy (C15): Note(x) stands for x
-    rec[NOTE + ".Note"] = lambda it, args, kwargs, node: AObj(nci_, {"copied_from": args[0] if args else None}, name="copy")
+    noteci = repo.mod(NOTE).cls("Note")
 
-    def same_note(g, w):
-        return g is w or g == w or (isinstance(g, AObj) and g.attrs.get("copied_from") is w)
-    fa = repo.find_method(ci, "add_notes")
-    a, b = note_stub(repo, "a"), note_stub(repo, "b")
-    src = AObj(ci, {"notes": [a, b]}, name="source")
-    cases = [
-        ("container", src, [[a], [b]]),
-        ("note", a, [[a]]),
-        ("string", "C", [["C"]]),
-        ("list-of-notes", [a, b], [[a], [b]]),
-        ("list-of-strings", ["C", "E"], [["C"], ["E"]]),
-        ("pairs", [["C", 5], ["E", 6]], [["C", 5], ["E", 6]]),
-        ("triples", [["C", 5, {"velocity": 20}]], [["C", 5, {"velocity": 20}]]),
-        ("mixed", [a, ["G", 3], "B"], [[a], ["G", 3], ["B"]]),
+    def new(it, c, *args, **kw):
+        return it.call(AClass(c), list(args), dict(kw), None)
+
+    V = 64  # the default velocity (a class attribute: a note that was never given one has no entry of its own)
+
+    def content(c):
+        return [(n.attrs.get("name"), n.attrs.get("octave"), n.attrs.get("velocity", V)) for n in c.attrs["notes"]]
+    forms = [
+        ("container", lambda it: new(it, ci, [new(it, noteci, "D", 4), new(it, noteci, "F", 4)]), [("D", 4, V), ("F", 4, V)]),
+        ("note", lambda it: new(it, noteci, "D", 4), [("D", 4, V)]),
+        ("string", lambda it: "C", [("C", 4, V)]),
+        ("list-of-notes", lambda it: [new(it, noteci, "D", 4), new(it, noteci, "F", 4)], [("D", 4, V), ("F", 4, V)]),
+        ("list-of-strings", lambda it: ["C", "E"], [("C", 4, V), ("E", 4, V)]),
+        ("pairs", lambda it: [["C", 5], ["E", 6]], [("C", 5, V), ("E", 6, V)]),
+        ("triples", lambda it: [["C", 5, {"velocity": 20}]], [("C", 5, 20)]),
+        ("mixed", lambda it: [new(it, noteci, "D", 4), ["G", 3], "B"], [("G", 3, V), ("D", 4, V), ("B", 4, V)]),
     ]
-    for label, arg, want in cases:
-        paths = run_method(repo, fa, lambda: [AObj(ci, {"notes": []}, name="c"), arg], summaries=rec)
-        ok = len(paths) == 1 and paths[0].kind == "return"
-        got = None
-        if ok:
-            got = [e[1][1:] + [e[2][k] for k in sorted(e[2])] for e in log_of(paths[0].interp) if e[0] == "NoteContainer.add_note"]
-            ok = len(got) == len(want) and all(len(g) == len(w) and all(same_note(x, y) for x, y in zip(g, w)) for g, w in zip(got, want))
-        ctx.check(ok, R, "add_notes[%s]" % label, fa.where(), "add_notes(<%s>)" % label,
-                  "add_note is called with %s, expected %s (%s)" % (short(repr(got), 150), short(repr(want), 150), [(p.kind, short(repr(p.value), 40)) for p in paths]))
-    fr = repo.find_method(ci, "remove_notes")
-    for label, arg, want in (("string", "C", [["C"]]), ("note", a, [[a]]), ("list", ["C", a], [["C"], [a]])):
-        paths = run_method(repo, fr, lambda: [AObj(ci, {"notes": []}, name="c"), arg], summaries=rec)
-        ok = len(paths) == 1 and paths[0].kind == "return"
-        got = None
-        if ok:
-            got = [e[1][1:] for e in log_of(paths[0].interp) if e[0] == "NoteContainer.remove_note"]
-            ok = len(got) == len(want) and all(len(g) == len(w) and all(x is y or x == y for x, y in zip(g, w)) for g, w in zip(got, want))
-        ctx.check(ok, R, "remove_notes[%s]" % label, fr.where(), "remove_notes(<%s>)" % label, "remove_note is called with %s, expected %s" % (got, want))
-    rec2 = record_class(repo, NC, "NoteContainer", ["add_notes", "remove_notes"], result=Opaque("list"))
-    for op, target in (("__add__", "add_notes"), ("__sub__", "remove_notes")):
-        fo = repo.find_method(ci, op)
-        x = Opaque("operand")
-        paths = run_method(repo, fo, lambda: [AObj(ci, {"notes": []}, name="c"), x], summaries=rec2)
-        ok = len(paths) == 1 and paths[0].kind == "return" and paths[0].value is paths[0].interp.args[0] and \
-            [e[1][1:] for e in log_of(paths[0].interp)] == [[x]] and log_of(paths[0].interp)[0][0] == "NoteContainer." + target
-        ctx.check(ok, R, op, fo.where(), "NoteContainer.%s" % op, "%s must delegate to %s(operand) and return the container" % (op, target))
+    for mname in ("add_notes", "__add__"):
+        fa = repo.find_method(ci, mname)
+        for label, mk, want in forms:
+            def go(it, mk=mk, mname=mname):
+                c = new(it, ci)
+                arg = mk(it)
+                r = it.call_method(c, mname, [arg], {}, None)
+                shared = [n for n in c.attrs["notes"] if isinstance(arg, AObj) and arg.cls is ci and any(n is m_ for m_ in arg.attrs["notes"])]
+                return c, r, shared
+            try:
+                ps = explore(lambda ch: Interp(repo, ch, max_depth=40), go)
+            except CannotDecide as e:
+                raise AnalysisError("%s(<%s>): %s" % (mname, label, e))
+            ok, why = len(ps) == 1 and ps[0].kind == "return", "outcome %s" % [(p.kind, short(repr(p.value), 60)) for p in ps]
+            if ok:
+                c, r, shared = ps[0].value
+                if content(c) != want:
+                    ok, why = False, "the container holds %s, the argument denotes %s" % (content(c), want)
+                elif mname == "__add__" and r is not c:
+                    ok, why = False, "'+' returns %r, not the container" % (r,)
+                elif shared:
+                    ok, why = False, "the container holds the other container's own Note objects"
+            ctx.check(ok, R, "%s[%s]" % (mname, label), fa.where(), "NoteContainer().%s(<%s>)" % (mname, label), why)
+    held = [("C", 4), ("D", 4), ("E", 4)]
+    rforms = [("string", lambda it: "C", [("D", 4), ("E", 4)]), ("note", lambda it: new(it, noteci, "D", 4), [("C", 4), ("E", 4)]),
+              ("list", lambda it: ["C", new(it, noteci, "D", 4)], [("E", 4)]), ("nothing held", lambda it: ["G", "A-2"], held)]
+    for mname in ("remove_notes", "__sub__"):
+        fr = repo.find_method(ci, mname)
+        for label, mk, want in rforms:
+            def go(it, mk=mk, mname=mname):
+                c = new(it, ci, [new(it, noteci, n, o) for n, o in held])
+                r = it.call_method(c, mname, [mk(it)], {}, None)
+                return c, r
+            try:
+                ps = explore(lambda ch: Interp(repo, ch, max_depth=40), go)
+            except CannotDecide as e:
+                raise AnalysisError("%s(<%s>): %s" % (mname, label, e))
+            ok, why = len(ps) == 1 and ps[0].kind == "return", "outcome %s" % [(p.kind, short(repr(p.value), 60)) for p in ps]
+            if ok:
+                c, r = ps[0].value
+                got = [(x, y) for x, y, _ in content(c)]
+                if got != want:
+                    ok, why = False, "the container holds %s, expected %s" % (got, want)
+                elif mname == "__sub__" and r is not c:
+                    ok, why = False, "'-' returns %r, not the container" % (r,)
+            ctx.check(ok, R, "%s[%s]" % (mname, label), fr.where(), "NoteContainer(C-4, D-4, E-4).%s(<%s>)" % (mname, label), why)
 
 
 def rule_remove(ctx, ci):
